@@ -249,7 +249,7 @@ def company_case(sharing, ctypes, kinds, events, vars_=("x", "t"), ns=None, with
                 params=dict(sharing=sharing, ctypes=ctypes, kinds=kinds, events=_evname(events), vars=vars_, ns=ns, with_c=with_c))
 
 
-def specialised_function_case(ctypes, events, kinds=None):
+def specialised_function_case(ctypes, events, kinds=None, mode="partial"):
     """the user wraps ONE function g(x, k, q) in a UserFunction and hands each condition its own specialisation
     G.partially_evaluate(k=k_i) as data function 'f': each condition computes with its own k, the user's wrapper and the
     first specialisation are not changed by making the second one"""
@@ -257,7 +257,7 @@ def specialised_function_case(ctypes, events, kinds=None):
     k = len(ctypes)
     kinds = kinds or ["fixed"] * k
     tags = "ABC"
-    name = "share_specialised_function/%s/%s" % ("+".join(ctypes), _evname(events))
+    name = "share_specialised_function/%s/%s%s" % ("+".join(ctypes), _evname(events), "/factory_defaults" if mode == "factory" else "")
 
     def body(env):
         def world(idx):
@@ -267,15 +267,29 @@ def specialised_function_case(ctypes, events, kinds=None):
             def g_impl(x, k, q):
                 return (x * coef).sum(dim=-1, keepdim=True) * k + q
 
+            W.coef = coef
             W.G = UserFunction(K.make_fn(["x", "k", "q"], g_impl, name="g"))
             W.ks = [env.tensor("k%s" % tags[i], ()) for i in range(k)]
             W.q = env.tensor("q", ())
             W.spec = {}
             return W
 
-        def construct(W, i):
-            W.spec[i] = W.G.partially_evaluate(k=W.ks[i])  # q stays open: a wrapper comes back
-            W.spec[i].set_default(q=W.q)
+        def construct(W, i, alone=False):
+            if mode == "factory" and alone:
+                # the reference: a function with its OWN code object (exec), so that nothing keyed by code objects links it
+                # to the functions of the company world
+                W.spec[i] = K.make_fn(["x", "k", "q"], lambda x, k, q: (x * W.coef).sum(dim=-1, keepdim=True) * k + q, name="g",
+                                      defaults={"k": W.ks[i], "q": W.q})
+            elif mode == "factory":
+                # plain functions from ONE def (one code object), each with its own declared defaults k=k_i, q=q
+                def factory(k_i, q_):
+                    def g(x, k=k_i, q=q_):
+                        return (x * W.coef).sum(dim=-1, keepdim=True) * k + q
+                    return g
+                W.spec[i] = factory(W.ks[i], W.q)
+            else:
+                W.spec[i] = W.G.partially_evaluate(k=W.ks[i])  # q stays open: a wrapper comes back
+                W.spec[i].set_default(q=W.q)
             W.dfs = {"f": W.spec[i]}
             return make_condition(env, W, ctypes[i], tags[i], kinds[i], "own", 2)
 
@@ -290,7 +304,7 @@ def specialised_function_case(ctypes, events, kinds=None):
         alone = {}
         for i in range(k):
             Wi = world(i)
-            ci = construct(Wi, i)
+            ci = construct(Wi, i, alone=True)
             alone[i] = [ci().reshape(-1) for _ in company[i]]
         return dict(company=[company[i] for i in range(k)], alone=[alone[i] for i in range(k)], user_wrapper_unchanged=user_wrapper_unchanged)
 
@@ -525,6 +539,7 @@ def cases(tier):
     evs = [e for e in interleavings(2)]
     for ev in (evs if th else [evs[0], evs[-1]]):
         cs.append(specialised_function_case(("pinn", "mean"), ev))
+        cs.append(specialised_function_case(("pinn", "mean"), ev, mode="factory"))
     # ---- periodic sides --------------------------------------------------------------------------------
     for nonper in ("default", "empty_static", "fixed", "fixed_static"):
         cs.append(periodic_sides_case(nonper))
